@@ -24,20 +24,21 @@ pub fn gen_name(rng: &mut Rng, allow_slash: bool, allow_empty: bool) -> String {
     s
 }
 
-/// EIDs as the public constructors / the parser / the decoder produce them.
+/// EIDs as the public constructors / the parser / the decoder produce them — built directly from the
+/// enum variants, so that a change to a constructor shows up in the ops that call it, not as a crash here.
 pub fn gen_eid_wf(rng: &mut Rng) -> EndpointID {
     match rng.below(10) {
-        0 | 1 => EndpointID::none(),
+        0 | 1 => EndpointID::DtnNone(1, 0),
         2..=4 => {
-            let node = match rng.below(6) { 0 => rng.u64b().max(1), 1 => 1, 2 => u64::MAX, _ => 1 + rng.below(1000) };
+            let node = match rng.below(7) { 0 => rng.u64b().max(1), 1 => 1, 2 => u64::MAX, 3 => *rng.pick(&[u32::MAX as u64, u32::MAX as u64 + 1, 1 << 32, 1 << 63]), _ => 1 + rng.below(1000) };
             let svc = match rng.below(5) { 0 => 0, 1 => rng.u64b(), 2 => u64::MAX, _ => rng.below(1000) };
-            EndpointID::with_ipn(node, svc).unwrap()
+            EndpointID::Ipn(2, IpnAddress::new(node, svc))
         }
         _ => {
-            let empty_ok = rng.chance(1, 20);
-            let node = gen_name(rng, false, empty_ok);
+            let empty_ok = rng.chance(1, 6);
+            let node = if empty_ok && rng.chance(1, 2) { String::new() } else { gen_name(rng, false, empty_ok) };
             let svc = match rng.below(6) { 0 => String::new(), 1 => format!("~{}", gen_name(rng, true, false)), _ => gen_name(rng, true, false) };
-            EndpointID::with_dtn(&format!("//{}/{}", node, svc)).unwrap()
+            EndpointID::Dtn(1, dtn_address(format!("//{}/{}", node, svc).as_bytes()).unwrap())
         }
     }
 }
